@@ -645,31 +645,40 @@ pub fn run(ctx: &mut Ctx, focus: Focus) {
                     repeat_same &= fresh_process_bytes(&src_path, &t.name) == t.bytes;
                 }
             }
-            let (tii_params, tii_tir_same) = match (&tii, &t.tir) {
+            let (tii_params, tii_tir_same, impl_params) = match (&tii, &t.tir) {
                 (Some(tii), Some(tirtx)) => {
                     let entry = &tii.json["transactions"][&t.name];
                     let params = keys_of(&entry["params"]["properties"]);
                     let content = entry["tir"]["content"].as_str().unwrap_or("");
-                    let same = hex::decode(content)
+                    let decoded = hex::decode(content)
                         .ok()
-                        .and_then(|b| tx3_tir::encoding::from_bytes(&b, tx3_tir::encoding::TirVersion::V1Beta0).ok())
+                        .and_then(|b| tx3_tir::encoding::from_bytes(&b, tx3_tir::encoding::TirVersion::V1Beta0).ok());
+                    let same = decoded
+                        .as_ref()
                         .map(|any| match any {
-                            tx3_tir::encoding::AnyTir::V1Beta0(x) => tirgen::tx_gal(&x) == tirgen::tx_gal(tirtx),
+                            tx3_tir::encoding::AnyTir::V1Beta0(x) => tirgen::tx_gal(x) == tirgen::tx_gal(tirtx),
                         })
                         .unwrap_or(false);
-                    (params, same)
+                    // what the server will ask the client for: the implementation's find_params of the shipped IR
+                    let reported: Vec<String> = decoded
+                        .map(|any| match any {
+                            tx3_tir::encoding::AnyTir::V1Beta0(x) => tx3_tir::reduce::find_params(&x).keys().cloned().collect(),
+                        })
+                        .unwrap_or_default();
+                    (params, same, reported)
                 }
-                _ => (vec![], true),
+                _ => (vec![], true, vec![]),
             };
             tx_gals.push(format!(
-                "(mk_tx_obs {} {} {} {} {} {} {})",
+                "(mk_tx_obs {} {} {} {} {} {} {} {})",
                 gal::s(&t.name),
                 gal::n(t.kind),
                 gal::opt(t.tir.as_ref().map(tirgen::tx_gal)),
                 gal::b(layout_same),
                 gal::b(repeat_same),
                 strs_gal(&tii_params),
-                gal::b(tii_tir_same)
+                gal::b(tii_tir_same),
+                strs_gal(&impl_params)
             ));
         }
         let (parties, env) = match &tii {
